@@ -861,7 +861,7 @@ def run(chk, replay=None):
     corr_total = {k: len(v[0]) for k, v in results.items()}
 
     # correspondence differs but no monitor failure: widen the search once before calling it broken
-    if any(corr_total.values()) and not chk.violations and not chk.known_hits and not replay and chk.tier == "quick":
+    if any(corr_total.values()) and not chk.violations and not replay and chk.tier == "quick":
         chk2 = vlib.Check(chk.pid, "thorough", chk.seed + 1)
         inp2 = generate(chk2, random.Random(chk.seed + 1))
         r2 = run_all(chk, inp2, "_wide")
@@ -895,7 +895,7 @@ def run(chk, replay=None):
         if v[0]:
             broken.append("correspondence %s differs on %d cases, first: %s" % (
                 names[k], len(v[0]), json.dumps(case_replay(inp, obs, k, v[0][0]), default=str)[:3000]))
-    if broken and not chk.violations and not chk.known_hits:
+    if broken and not chk.violations:
         chk.fail("broken.txt", "\n\n".join(broken), no_input=True)
     chk.assumptions += [
         "Go int is int64 (amd64); float64 -> int conversion of an out-of-range value gives the minimum int64",
